@@ -319,3 +319,137 @@ _run_c13_prev = run
 def run(res, facts, tier):
     _run_c13_prev(res, facts, tier)
     r4_declaration_order(res, facts)
+
+
+# ----------------------------------------------------------------------------------------------- R5: the decision itself
+CHAIN = ('StylesheetExecutionContextDefault::shouldStripSourceNode', 'StylesheetRoot::shouldStripSourceNode', 'StylesheetRoot::internalShouldStripSourceNode')
+# atoms under which "do not strip" may be answered without consulting the declarations: text of the normalised atom -> value it must have
+NO_STRIP_GUARDS = (
+    ('hasPreserveOrStripSpaceElements()', False), ('m_hasPreserveOrStripConditions', False), ('.isWhitespace()', False),
+    ('ELEMENT_NODE', None),   # parent is not an element (either spelling of the comparison)
+    ('parent == 0', True), ('theParent == 0', True), ('parent != 0', False),
+    ('.end()', None),         # the list of declarations is exhausted
+)
+
+
+def r5_decision(res, facts):
+    """The answer to "is this text node stripped" is a function of the node and the declarations only: every function of the decision chain returns
+    false under a reviewed guard, the next function's answer for the same node, or (last link) whether the first tester that matches the node's parent
+    element is a strip tester.  A remembered, defaulted or otherwise sourced answer is a different tree for some document."""
+    r = res.rule('C13-R5', 'the strip decision (StylesheetExecutionContextDefault::shouldStripSourceNode -> StylesheetRoot::shouldStripSourceNode -> internalShouldStripSourceNode): every '
+                 'returned value is false under a reviewed guard, the next link asked about the same node, or "the matching tester of the parent element is a strip tester"', floor=6)
+    names = {c.split('::')[-1] for c in CHAIN}
+    for qn in CHAIN:
+        cands = [a for a in facts.asts(qn, must=False) if a.get('body') is not None and len(a['params']) == 1 and 'XalanText' in a['params'][0]['ty']]
+        if len(cands) != 1:
+            raise AnalysisBroken('%s(const XalanText&): %d bodies' % (qn, len(cands)))
+        a = cands[0]
+        node = a['params'][0]
+        cfg = CFG(a)
+        mc = common.must_conds(cfg)
+        defs = collections.defaultdict(list)
+        for x in walk(a['body']):
+            if x['k'] == 'Decl':
+                for v in x['vars']:
+                    if v.get('init') is not None:
+                        defs[v['id']].append(v['init'])
+            elif x['k'] == 'Bin' and x['op'] == '=':
+                t = strip_casts(x['lhs'])
+                if t.get('k') == 'Ref' and t.get('d') == 'local':
+                    defs[t['id']].append(x['rhs'])
+
+        def derives_from_parent(e, depth=0):
+            """e denotes the parent element of the node parameter"""
+            e = strip_casts(e)
+            while e is not None and e.get('k') == 'Un' and e['op'] in ('*', '&'):
+                e = strip_casts(e['e'])
+            if e is None or depth > 4:
+                return False
+            if e.get('k') == 'MCall' and e.get('n') == 'getParentNode':
+                o = strip_casts(e['obj'])
+                return o.get('k') == 'Ref' and o.get('id') == node['id']
+            if e.get('k') == 'Ref' and e.get('d') == 'local':
+                ds = defs.get(e['id'], [])
+                return bool(ds) and all(derives_from_parent(d, depth + 1) for d in ds)
+            return False
+
+        def classify(e, n, depth=0):
+            e = strip_casts(e)
+            if e is None:
+                return 'nothing'
+            if e.get('k') == 'Bool' and not e.get('cv'):
+                return 'FALSE'
+            if e.get('k') == 'Ref' and e.get('d') == 'local' and depth < 3:
+                ds = defs.get(e['id'], [])
+                if not ds:
+                    return 'an uninitialised local'
+                out = {classify(d, n, depth + 1) for d in ds}
+                bad = [o for o in out if o not in ('FALSE', 'NEXT', 'TESTER')]
+                return bad[0] if bad else ('FALSE' if out == {'FALSE'} else 'NEXT')
+            if e.get('k') in ('MCall', 'Call') and (e.get('n') in names):
+                args = [strip_casts(x) for x in e.get('args', [])]
+                if len(args) == 1 and args[0].get('k') == 'Ref' and args[0].get('id') == node['id']:
+                    return 'NEXT'
+                return 'the decision for another node (%s)' % pp(e)[:80]
+            if e.get('k') == 'Bin' and e['op'] == '==':
+                l, rr = strip_casts(e['lhs']), strip_casts(e['rhs'])
+                for x, y in ((l, rr), (rr, l)):
+                    if x.get('k') == 'MCall' and x.get('n') == 'getType' and y.get('k') == 'Ref' and y.get('n') == 'eStrip':
+                        t = pp(strip_casts(x['obj']))
+                        for atom, br in mc.get(n.id, []):
+                            core, eff = common.norm_atom(atom, br)
+                            if core.get('k') == 'Bin' and core['op'] in ('!=', '==') and 'eMatchScoreNone' in pp(core):
+                                call = [c for c in calls(core) if c['k'] == 'OpCall' and c.get('op') == '()' and pp(strip_casts(c['args'][0])) == t]
+                                if call and (core['op'] == '!=') == eff and derives_from_parent(call[0]['args'][1]):
+                                    return 'TESTER'
+                        return 'the type of a tester that was not established to match the parent element of this node'
+            return pp(e)[:90]
+
+        site = short(a.get('q') or qn)
+        n_ret = 0
+        for n in cfg.nodes:
+            if n.kind != 'stmt' or n.ast is None or n.ast.get('k') != 'Return':
+                continue
+            n_ret += 1
+            what = classify(n.ast.get('e'), n)
+            where = '%s return at line %s' % (qn.split('::', 1)[-1] if False else qn, n.ast.get('l'))
+            if what in ('NEXT', 'TESTER'):
+                r.ok(where, what)
+            elif what == 'FALSE':
+                def guard(c):
+                    core, eff = common.norm_atom(c.ast, True)
+                    if core is None:
+                        return None
+                    t = pp(core)
+                    for text, val in NO_STRIP_GUARDS:
+                        if text in t:
+                            if val is None:
+                                # comparison atoms: the discharging branch is the one on which "not an element" / "exhausted" holds
+                                if core.get('k') == 'Bin' and core['op'] in ('==', '!='):
+                                    is_eq = core['op'] == '=='
+                                    want_eq = text == '.end()'          # i == end  discharges; type != ELEMENT discharges
+                                    return eff if is_eq == want_eq else (not eff)
+                                if core.get('k') == 'OpCall' and core.get('op') in ('==', '!='):
+                                    is_eq = core['op'] == '=='
+                                    return eff if is_eq else (not eff)
+                                return None
+                            return eff if val else (not eff)
+                    return None
+                if reach_unguarded(cfg, [n], guard):
+                    r.violation(where, '"not stripped" is answered on a path that passed none of the reviewed guards (no declarations, not white space, no parent element, declarations exhausted)',
+                                common.file_line(a, n.ast))
+                else:
+                    r.ok(where, 'false under a reviewed guard')
+            else:
+                r.violation(where, 'the answer is %s: not derived from the declarations tested against the parent element of this node' % what, common.file_line(a, n.ast))
+        if n_ret == 0:
+            raise AnalysisBroken(qn + ' has no return statement')
+    return r
+
+
+_run_c13_4 = run
+
+
+def run(res, facts, tier):
+    _run_c13_4(res, facts, tier)
+    r5_decision(res, facts)
